@@ -365,6 +365,36 @@ func propC18scc(a *Analysis, r *Registry, b *B) {
 			r.Fail(rB, name+"/connect/out-edge-push", where, "out-edges are not pushed exactly for successors with low == ^uint(0) under SCCEdges, carrying the successor's component id")
 		}
 		// collecting: from the top of `out` down while the edge belongs to this component
+		for _, f := range ifs {
+			if len(FindFn(f.c, "fld:outEdge.stackLen")) == 0 {
+				continue
+			}
+			okForm := false
+			for _, cj := range conjuncts(f.c) {
+				core, neg := cj, false
+				if na := cj.SingleAtom(); na != nil && na.Name == "not" {
+					core, neg = na.Args[0], true
+				}
+				if at := core.SingleAtom(); at != nil {
+					sl := at.Args[0].SingleAtom()
+					// stops at `stackLen < len(stack)`; equivalently goes on while `len(stack) <= stackLen`
+					if at.Name == "cmp<" && !neg && sl != nil && sl.Name == "fld:outEdge.stackLen" && strings.HasPrefix(at.Args[1].String(), "len(") {
+						okForm = true
+					}
+					if at.Name == "cmp<" && neg && sl != nil && sl.Name == "fld:outEdge.stackLen" && strings.HasPrefix(at.Args[1].String(), "len(") {
+						okForm = true // written as the loop's continue condition !(stackLen < len)
+					}
+					if at.Name == "cmp<=" && !neg && strings.HasPrefix(at.Args[0].String(), "len(") {
+						if s2 := at.Args[1].SingleAtom(); s2 != nil && s2.Name == "fld:outEdge.stackLen" {
+							okForm = true // `out[k].stackLen >= len(stack)` as a continue condition
+						}
+					}
+				}
+			}
+			if !okForm {
+				r.Fail(rB, name+"/connect/collect/boundary", a.W.InstrPos(f.in), "an out-edge belongs to the component being closed exactly when it was pushed at or above the cut stack height (stackLen >= len(stack)); the test here is "+clip(f.c.String(), 160))
+			}
+		}
 		var colJ, outV *RF
 		for _, f := range ifs {
 			if at := f.c.SingleAtom(); at != nil && at.Name == "cmp<" {
@@ -471,6 +501,27 @@ func propC18scc(a *Analysis, r *Registry, b *B) {
 				if ia := at.Args[1].SingleAtom(); ia != nil && ia.Name == "idx" && ia.Args[0].Equal(low) {
 					drvN = ia.Args[1]
 				}
+			}
+		}
+		if drvN != nil {
+			// connect(nid) is reached exactly for nodes not yet visited
+			okCall := false
+			ofc.Ctx.Instrs(func(in ssa.Instruction) {
+				c, ok := in.(*ssa.Call)
+				if !ok || ofc.Ctx.LoopOf(c.Block()) == nil || c.Call.StaticCallee() != nil {
+					return
+				}
+				if _, isB := c.Call.Value.(*ssa.Builtin); isB || len(c.Call.Args) != 1 || !ofc.Val(c.Call.Args[0]).Equal(drvN) {
+					return
+				}
+				if ofc.HoldsAt(c.Block(), S.Cmp("==", S.Int(0), lowAt(drvN))) {
+					okCall = true
+				}
+			})
+			if okCall {
+				r.OK(rB, name+"/driver/when", b.pos(outer), "connect(nid) is called exactly for nodes with low[nid] == 0")
+			} else {
+				r.Fail(rB, name+"/driver/when", b.pos(outer), "connect(nid) is not called exactly when low[nid] == 0")
 			}
 		}
 		if drvN == nil {
@@ -644,6 +695,26 @@ func propC18dot(a *Analysis, r *Registry, b *B) {
 				r.Fail(rB, name+"/default-label/when", where, "the default label is not appended under `no label among the node's attributes`")
 			}
 		}
+		// an optional callback (a func-typed field of d) is called only under `!= nil`
+		fc.Ctx.Instrs(func(in ssa.Instruction) {
+			c, ok := in.(*ssa.Call)
+			if !ok || c.Call.IsInvoke() || c.Call.StaticCallee() != nil {
+				return
+			}
+			if _, isB := c.Call.Value.(*ssa.Builtin); isB {
+				return
+			}
+			cv := fc.Val(c.Call.Value)
+			ca := cv.SingleAtom()
+			if ca == nil || !strings.HasPrefix(ca.Name, "fld:Dot.") {
+				return
+			}
+			if fc.HoldsAt(c.Block(), S.Cmp("!=", cv, S.Var("nil", false))) {
+				r.OK("C-guard nil", name+"/"+strings.TrimPrefix(ca.Name, "fld:Dot."), a.W.InstrPos(c), "the optional callback is called only when it is set")
+			} else {
+				r.Fail("C-guard nil", name+"/"+strings.TrimPrefix(ca.Name, "fld:Dot."), a.W.InstrPos(c), "the optional callback "+ca.Name+" is called without being known non-nil")
+			}
+		})
 		// early returns: exactly on a write error
 		nRet, bad := 0, ""
 		fc.Ctx.Instrs(func(in ssa.Instruction) {
@@ -669,4 +740,12 @@ func propC18dot(a *Analysis, r *Registry, b *B) {
 			r.OK(rB, name+"/stops-on-error-only", b.pos(fn), fmt.Sprintf("all %d tests of a write's error return exactly when it is non-nil", nRet))
 		}
 	})
+}
+
+// conjuncts: the arguments of a conjunction, or the condition itself.
+func conjuncts(c *RF) []*RF {
+	if at := c.SingleAtom(); at != nil && at.Name == "land" {
+		return at.Args
+	}
+	return []*RF{c}
 }
